@@ -44,7 +44,18 @@ LINES = {
     "imaginary axis x=+0": ("axis", "x", 0.0), "imaginary axis x=-0": ("axis", "x", -0.0),
     "diagonal y=x": ("diag", 1), "diagonal y=-x": ("diag", -1),
 }
-ALL = set(LINES)
+AXES_DIAGS = set(LINES)
+# rays y = +-2**k * x (the product is exact, or correctly rounded to a subnormal / infinity: every (x, fl(c*x)) is an input)
+RAY_EXPONENTS = (-20, -8, -3, -1, 1, 3, 8, 20)
+for _k in RAY_EXPONENTS:
+    for _s in (1, -1):
+        LINES[f"ray y={'-' if _s < 0 else ''}2**{_k}*x"] = ("ray", _s * 2.0 ** _k)
+# lines parallel to an axis through the singular points +-1, +-i
+for _v, _c in (("x", 1.0), ("x", -1.0), ("y", 1.0), ("y", -1.0)):
+    LINES[f"line {_v}={_c:g}"] = ("axis", _v, _c)
+RAYS = {k for k in LINES if k.startswith("ray ")}
+SHIFTED = {k for k in LINES if k.startswith("line ")}
+ALL = set(AXES_DIAGS)
 DECIDED = {
     "absolute": ALL, "square": ALL, "sqrt": ALL, "atan": ALL, "atanh": ALL, "asin": ALL, "acos": ALL, "asinh": ALL, "acosh": ALL,
     "exp": {"real axis y=+0", "real axis y=-0"},
@@ -87,6 +98,13 @@ def line_terms(fa, name, ctype, line):
     t = imp.imp(ex.body)
     tre, tim = (t[1], t[2]) if isinstance(t, tuple) and len(t) == 3 and t[0] == "PAIR" else (t, None)
     spec = LINES[line]
+    if spec[0] == "ray":
+        from ir.normal import const
+        rep = T("multiply", const(("num", float(spec[1]).hex())), sym("x"))
+        m1, m2 = {}, {}
+        tre = _simp(subst(tre, {"y": rep}, m1), m2)
+        tim = _simp(subst(tim, {"y": rep}, m1), m2) if tim is not None else None
+        return tre, tim, "x"
     if spec[0] == "diag":
         rep = sym("x") if spec[1] == 1 else T("negative", sym("x"))
         m1, m2 = {}, {}
@@ -103,12 +121,17 @@ def make_judge(name, line, tre, tim, var, fmt, dom, delta):
     abs_slack = LD(float(fmt.tiny)) * (2 * LIBM_SLACK + 8)
 
     def cplx(t, side, tsign=None):
+        tf = t
         t = t.astype(LD)
         if tsign is not None:
             t = np.where(t == 0, LD(tsign), t)
+            tf = np.where(tf == 0, fmt.ft(tsign), tf)
         if spec[0] == "axis":
-            c = np.full(t.shape, LD(side))
+            c = np.full(t.shape, LD(spec[2] if side is None else side))
             re, im = (t, c) if var == "x" else (c, t)
+        elif spec[0] == "ray":
+            with np.errstate(all="ignore"):
+                re, im = t, (fmt.ft(spec[1]) * tf).astype(LD)
         else:
             re, im = t, (t if spec[1] == 1 else -t)
         z = np.empty(t.shape, dtype=CLD)
@@ -127,7 +150,10 @@ def make_judge(name, line, tre, tim, var, fmt, dom, delta):
         Im = evaluate(tim, env, dom, memo) if tim is not None else None
         shp = lo.shape
         # reference values: both sides of a zero component (branch cuts), and both signs of the variable when it is zero
-        sides = [(0.0, None), (-0.0, None), (0.0, 0.0), (0.0, -0.0), (-0.0, 0.0), (-0.0, -0.0)] if spec[0] == "axis" else [(None, None), (None, 0.0), (None, -0.0)]
+        if spec[0] == "axis" and spec[2] == 0:
+            sides = [(0.0, None), (-0.0, None), (0.0, 0.0), (0.0, -0.0), (-0.0, 0.0), (-0.0, -0.0)]
+        else:
+            sides = [(None, None), (None, 0.0), (None, -0.0)]
         with np.errstate(all="ignore"):
             vals = [[f(cplx(p, sd, ts)) for p in (lo, mid, hi)] for sd, ts in sides]
         proved = np.ones(shp, bool)
